@@ -26,6 +26,9 @@ def run(ck):
     ck.rule("C05-O3", "rotate(): after close() every path reopens the same file with WriteOnly|Append and without Truncate; FileSink opens with Append")
     ck.rule("C05-O4", "destructive file calls reachable from the sinks' entry points are exactly: rotate(): rename(active name -> generated rotated name); compressFile(): open(path+'.gz') and remove(its parameter); removeOldFiles(): remove(first of findRotatedFiles())")
     ck.rule("C05-O5", "rotation code never writes record bytes: device writes reachable from rotateIfNeeded go to compressFile's own output file only")
+    ck.rule("C05-O6", "a rotated name is never handed out twice: the next index is 1 + the maximum over every existing plain or .gz entry of that date (else compressFile() truncates an existing archive / rename fails and the history is lost or merged)")
+    from rules.c09 import next_index
+    next_index(ck, S, "C05-O6")
     # ---- O1
     fn = S.send
     g = S.g(fn)
